@@ -142,58 +142,73 @@ func c17Admission(c *core.Ctx, r *core.Report, sm *summaries) {
 // must not hand it to the emptied processor: every call of processor.Process in DataProcessor.Fetch lies where
 // isCleanupCalled, read with processorLock held, is known to be false.
 func c17Cleaned(c *core.Ctx, r *core.Report, a *locks.Analysis) {
-	fn := c.Fn(pkgProcessor, "DataProcessor.Fetch")
+	c.Fn(pkgProcessor, "DataProcessor.Fetch")
 	flag := c.Field(pkgProcessor, "DataProcessor.isCleanupCalled")
 	procF := c.Field(pkgProcessor, "DataProcessor.processor")
-	ff := a.Facts[fn]
-	var loads []ssa.Value
-	for _, b := range fn.Blocks {
-		for _, in := range b.Instrs {
-			ld, ok := in.(*ssa.UnOp)
-			if !ok || ld.Op != token.MUL {
+	// every function of the package that hands a batch to DataProcessor.processor (Fetch, or a method
+	// extracted from it): the guard must be in the same function, since the flag has to be read under the lock
+	// that is still held at the call
+	n := 0
+	for _, fn := range c.RepoFunctions() {
+		if core.FnPkgPath(fn) != core.ModPath+"/"+pkgProcessor {
+			continue
+		}
+		var sites []ssa.CallInstruction
+		for _, ci := range core.CallsIn(fn) {
+			cc := ci.Common()
+			if !cc.IsInvoke() || cc.Method.Name() != "Process" {
+				continue
+			}
+			ld, ok := cc.Value.(*ssa.UnOp)
+			if !ok {
 				continue
 			}
 			fa, ok := ld.X.(*ssa.FieldAddr)
-			if !ok || core.FieldOfAddr(fa) != flag {
+			if !ok || core.FieldOfAddr(fa) != procF {
 				continue
 			}
-			held := false
-			if ff != nil {
-				for _, h := range ff.MustAt[in] {
-					if strings.HasSuffix(h.Class.Name, "processorLock") {
-						held = true
+			sites = append(sites, ci)
+		}
+		if len(sites) == 0 {
+			continue
+		}
+		ff := a.Facts[fn]
+		var loads []ssa.Value
+		for _, b := range fn.Blocks {
+			for _, in := range b.Instrs {
+				ld, ok := in.(*ssa.UnOp)
+				if !ok || ld.Op != token.MUL {
+					continue
+				}
+				fa, ok := ld.X.(*ssa.FieldAddr)
+				if !ok || core.FieldOfAddr(fa) != flag {
+					continue
+				}
+				held := false
+				if ff != nil {
+					for _, h := range ff.MustAt[in] {
+						if strings.HasSuffix(h.Class.Name, "processorLock") {
+							held = true
+						}
 					}
 				}
-			}
-			if held {
-				loads = append(loads, ld)
-			}
-		}
-	}
-	n := 0
-	for _, ci := range core.CallsIn(fn) {
-		cc := ci.Common()
-		if !cc.IsInvoke() || cc.Method.Name() != "Process" {
-			continue
-		}
-		ld, ok := cc.Value.(*ssa.UnOp)
-		if !ok {
-			continue
-		}
-		fa, ok := ld.X.(*ssa.FieldAddr)
-		if !ok || core.FieldOfAddr(fa) != procF {
-			continue
-		}
-		n++
-		ok = false
-		for _, l := range loads {
-			if core.BoolKnownAt(l, ci.Block()) == core.No {
-				ok = true
+				if held {
+					loads = append(loads, ld)
+				}
 			}
 		}
-		r.Check(ok, "GUARD", fmt.Sprintf("%s:Process#%d-not-after-Cleanup", shortFn(fn), n), c.Pos(ci.Pos()),
-			"the processor is used only where isCleanupCalled, read under processorLock, is known false",
-			"Fetch hands a batch to the processor without having seen, under processorLock, that Cleanup has not run: a cancel or timeout that lands while Fetch waits for input empties the processor, the late batch is processed on nil state and the query goroutine panics (there is no recover), which takes the server down")
+		for i, ci := range sites {
+			n++
+			ok := false
+			for _, l := range loads {
+				if core.BoolKnownAt(l, ci.Block()) == core.No {
+					ok = true
+				}
+			}
+			r.Check(ok, "GUARD", fmt.Sprintf("%s:Process#%d-not-after-Cleanup", shortFn(fn), i+1), c.Pos(ci.Pos()),
+				"the processor is used only where isCleanupCalled, read under processorLock, is known false",
+				"Fetch hands a batch to the processor without having seen, under processorLock, that Cleanup has not run: a cancel or timeout that lands while Fetch waits for input empties the processor, the late batch is processed on nil state and the query goroutine panics (there is no recover), which takes the server down")
+		}
 	}
 	r.Floor("GUARD", "calls of processor.Process in DataProcessor.Fetch", n, 1)
 }
